@@ -28,6 +28,10 @@ func checkC04(c *Ctx) {
 	c.checkClipExact()
 	c.checkNormalizeHalfOpen()
 	c.checkAdapterBoundsAgree()
+	c.checkRangeHiExclusive()
+	// every numbered delete transaction is recorded at the topic row (next number after a reload)
+	c.checkDelIdRecorded()
+	c.checkSavedTimestamp()
 }
 
 func (c *Ctx) checkHistoryReads() {
